@@ -89,6 +89,33 @@ def restrict_config(h, mesh, selections, sub=None, bnd=None, pt=None):
                 R = m.remove_elements(comp)
                 h.concrete('%s: remove_elements(complement) has the same connectivity' % tag, np.array_equal(np.asarray(R.t), tM))
                 h.equal('%s: remove_elements(complement) has the same coordinates' % tag, np.asarray(R.doflocs), np.asarray(PM))
+        # equivalent ways of naming the cells (subdomain name, list of names, predicate-free index list) and the skip flags
+        def same_mesh(tag_, A_, B_, tags=True):
+            ok_ = np.array_equal(np.asarray(A_.t), np.asarray(B_.t)) and np.asarray(A_.doflocs).shape == np.asarray(B_.doflocs).shape
+            h.concrete('%s: same connectivity' % tag_, ok_)
+            if ok_:
+                h.equal('%s: same coordinates' % tag_, np.asarray(A_.doflocs), np.asarray(B_.doflocs))
+            if tags:
+                for attr in ('subdomains', 'boundaries'):
+                    a_, b_ = getattr(A_, attr), getattr(B_, attr)
+                    h.concrete('%s: same %s' % (tag_, attr), (a_ is None) == (b_ is None) and (a_ is None or (sorted(a_) == sorted(b_) and all(
+                        np.array_equal(np.asarray(a_[k_]), np.asarray(b_[k_])) for k_ in a_))))
+        if sub:
+            nm0 = sorted(sub)[0]
+            by_ix = m.restrict(np.asarray(m.subdomains[nm0]).astype(np.int32))
+            same_mesh('restrict("%s") == restrict(its index array)' % nm0, m.restrict(nm0), by_ix)
+            R1 = m.restrict(nm0, skip_boundaries=True)
+            same_mesh('skip_boundaries', R1, by_ix, tags=False)
+            h.concrete('skip_boundaries drops the boundary names and keeps the subdomain names', R1.boundaries is None and
+                       (by_ix.subdomains is None or (R1.subdomains is not None and sorted(R1.subdomains) == sorted(by_ix.subdomains)
+                                                     and all(np.array_equal(np.asarray(R1.subdomains[k_]), np.asarray(by_ix.subdomains[k_])) for k_ in R1.subdomains))))
+            R2 = m.restrict(nm0, skip_subdomains=True)
+            same_mesh('skip_subdomains', R2, by_ix, tags=False)
+            h.concrete('skip_subdomains drops the subdomain names and keeps the boundary names', R2.subdomains is None and
+                       (by_ix.boundaries is None or (R2.boundaries is not None and sorted(R2.boundaries) == sorted(by_ix.boundaries)
+                                                     and all(np.array_equal(np.asarray(R2.boundaries[k_]), np.asarray(by_ix.boundaries[k_])) for k_ in R2.boundaries))))
+            same_mesh('remove_elements("%s") == restrict(complement)' % nm0, m.remove_elements(nm0),
+                      m.restrict(np.setdiff1d(np.arange(t.shape[1]), np.asarray(m.subdomains[nm0])).astype(np.int32)))
         # operand untouched
         ok = np.array_equal(np.asarray(m.t), snap[1]) and all(np.array_equal(m.subdomains[k], v) for k, v in snap[2].items()) \
             and all(np.array_equal(m.boundaries[k], v) for k, v in snap[3].items())
